@@ -38,12 +38,19 @@ class Evil:
         raise AttributeError(name)
 
 
+_FUNCS = {}
+
+
 def _func(module, qualname):
-    def f(a):
-        pass
-    f.__module__ = module
-    f.__qualname__ = qualname
-    return f
+    """one function object per (module, qualname): two traces built from the same spec are equal (CallTrace.__eq__)
+    and hash alike, i.e. a batch can hold exact duplicates"""
+    if (module, qualname) not in _FUNCS:
+        def f(a):
+            pass
+        f.__module__ = module
+        f.__qualname__ = qualname
+        _FUNCS[(module, qualname)] = f
+    return _FUNCS[(module, qualname)]
 
 
 def _variant(v, tag):
@@ -88,6 +95,13 @@ def build_trace(spec):
             return CallTrace(_func("m", "bad_ret"), {"a": int}, "not a type")
         if kind == "func":
             return CallTrace(object(), {"a": int}, int)                       # no __qualname__ on the callable
+        # unserialisable AND unhashable (hash(trace) raises TypeError): a list / dict / set where a type belongs
+        if kind == "unhash_arg":
+            return CallTrace(_func("m", "bad_unhash_arg"), {"a": [int]}, int)
+        if kind == "unhash_ret":
+            return CallTrace(_func("m", "bad_unhash_ret"), {"a": int}, {"x": 1})
+        if kind == "unhash_set":
+            return CallTrace(_func("m", "bad_unhash_set"), {"a": int, "b": {1, 2}}, None, [str])
         raise ValueError(kind)
     if spec[0] == "evil":
         return CallTrace(_func("m", "evil"), {"a": Evil()}, int)
@@ -122,20 +136,20 @@ def batch_rows(specs):
 # ------------------------------------------------------------------------------------------------
 # independent observation
 # ------------------------------------------------------------------------------------------------
-def read_table_or_fail(path, timeout=1.0):
+def read_table_or_fail(path, timeout=1.0, table=None):
     """read_table, but an unreadable database is an observation (no rows, not ok), not a harness crash"""
     try:
-        return read_table(path, timeout)
+        return read_table(path, timeout, table or TABLE)
     except sqlite3.Error as e:
         return [("?unreadable", f"{type(e).__name__}: {e}", "", None, None)], False
 
 
-def read_table(path, timeout=5.0):
+def read_table(path, timeout=5.0, table=TABLE):
     """(rows in rowid order, ok) through a fresh sqlite3 connection; ok = integrity_check says ok and every
     created_at is a well-formed timestamp"""
     c = sqlite3.connect(path, timeout=timeout)
     try:
-        rows = c.execute(f"SELECT module, qualname, arg_types, return_type, yield_type, created_at FROM {TABLE} "
+        rows = c.execute(f"SELECT module, qualname, arg_types, return_type, yield_type, created_at FROM {table} "
                          f"ORDER BY rowid").fetchall()
         ic = c.execute("PRAGMA integrity_check").fetchall()
     finally:
@@ -186,17 +200,22 @@ class Rig:
     """conn 0 is SQLiteStore.make_store(path) literally; the others are the same construction with a short busy
     timeout so that an injected lock conflict does not wait 5 s."""
 
-    def __init__(self, path, nconn=3):
+    def __init__(self, path, nconn=3, tables=None):
         self.path = path
-        self.stores = [self._open(i) for i in range(nconn)]
+        self.tables = list(tables) if tables else [TABLE] * nconn     # table name of each connection's store
+        self.stores = [self._open(i) for i in range(len(self.tables))]
 
     def _open(self, i):
         from monkeytype.db.sqlite import SQLiteStore, create_call_trace_table
-        if i == 0:
+        t = self.tables[i]
+        if i == 0 and t == TABLE:
             return SQLiteStore.make_store(self.path)
         conn = sqlite3.connect(self.path, timeout=0.02)
-        create_call_trace_table(conn)
-        return SQLiteStore(conn)
+        if t == TABLE:
+            create_call_trace_table(conn)
+            return SQLiteStore(conn)
+        create_call_trace_table(conn, t)        # a store on a table of its own in the same file
+        return SQLiteStore(conn, t)
 
     def close(self):
         for s in self.stores:
@@ -257,7 +276,7 @@ class Rig:
                     blocker.rollback()
                     blocker.close()
             out["vm_steps"] = calls[0]
-            rows, ok = read_table_or_fail(self.path)
+            rows, ok = read_table_or_fail(self.path, table=self.tables[ci])
             out["table"] = rows
             out["ok"] = ok
             return out
@@ -280,17 +299,39 @@ class Rig:
             except Exception as e:
                 return {"k": "raised", "err": f"{type(e).__name__}: {e}"}
         if kind == "table":
-            rows, ok = read_table_or_fail(self.path)
+            rows, ok = read_table_or_fail(self.path, table=op[1] if len(op) > 1 else TABLE)
             return {"k": "table", "table": rows, "ok": ok}
         raise ValueError(op)
 
 
+def split_head(ops):
+    """a history may start with the pseudo-operation ["tables", [name per connection]] -> (tables | None, real ops)"""
+    if ops and ops[0][0] == "tables":
+        return list(ops[0][1]), list(ops[1:])
+    return None, list(ops)
+
+
+def table_of(op, tables):
+    """the table an operation touches; None = all (reopen)"""
+    if op[0] in ("add", "add_fault", "filter", "modules"):
+        return tables[op[1]] if tables else TABLE
+    if op[0] == "table":
+        return op[1] if len(op) > 1 else TABLE
+    return None
+
+
+def project(steps, tables, t):
+    """the sub-history that concerns table t (each table of a file is a store of its own)"""
+    return [(op, obs) for op, obs in steps if table_of(op, tables) in (None, t)]
+
+
 def run_history(path, ops, nconn=3):
-    """fresh file -> [(op, obs)]"""
+    """fresh file -> [(op, obs)] (the ["tables", ...] head, if any, configures the rig and is not a step)"""
+    tables, ops = split_head(ops)
     for suffix in ("", "-journal", "-wal", "-shm"):
         if os.path.exists(path + suffix):
             os.remove(path + suffix)
-    rig = Rig(path, nconn)
+    rig = Rig(path, nconn, tables)
     try:
         return [(op, rig.do(op)) for op in ops]
     finally:
